@@ -97,6 +97,14 @@ def potentials (p : Problem) (x : Mat) : List Int × List Int :=
     ((List.range n).foldl (fun acc i => optMin acc (some (aget ca i j + v.getD i 0))) none).getD 0)
   (u, v.toList)
 
+/-- `3·|cost| < INT_MAX` for every entry: the hypothesis of the universal theorems about `solve`
+(`Properties/C13.lean`), evaluated by the driver on every solved instance (`bound ok`).  With it no sum
+`sendingCost_ + cost` formed by the solver reaches the sentinel `INT_MAX`; `costsFromIntegers` scales
+float costs to `|cost| ≤ INT_MAX/(4·nbSinks)`. -/
+def costBoundOk (p : Problem) : Bool :=
+  allTo p.nbSinks (fun i => allTo p.nbSources (fun j =>
+    decide (3 * p.cost i j < intMax) && decide (-intMax < 3 * p.cost i j)))
+
 /-- what the driver evaluates on every solved instance -/
 def certifies (p : Problem) (x : Mat) : Bool :=
   shapeOk p x && checkCert p x (potentials p x).1 (potentials p x).2
